@@ -429,6 +429,7 @@ def run(chk):
     chk.cov["timing_s"] = timing
     # ------------------------------------------------------------------ report
     for key, items in sorted(by_key.items()):
+        items.sort(key=lambda x: x[2] is None)          # concrete uncovered chains first (stable)
         fn, txt, detail = items[0]
         d = chk.replay_dir(key)
         write_replay(d, key, items)
